@@ -347,6 +347,7 @@ type Unit struct {
 	curWithout    []string // exclusions for obligations being generated
 	paramVals     map[string]Val
 	rangeCells    map[*ssa.Range]*ghostCell
+	heapBorn      map[int]*Term
 	err           error
 }
 
@@ -402,6 +403,8 @@ func (u *Unit) run() (err error) {
 		fr.binds = append(fr.binds, &Ptr{kind: pCell, cell: g, base: g.typ, typ: g.typ})
 		_ = i
 	}
+	// the nil reference is not an allocated object
+	u.assume(tb.True(), tb.Not(u.isAlloc0(tb.Int(0))))
 	u.entry = st.clone()
 	// preconditions
 	penv := u.paramEnv(st, nil)
